@@ -171,6 +171,7 @@ def retry_packet(version, dcid, scid, odcid, token):
 
 # ------------------------------------------------------------------ simulator
 class MitmSim(simmod.Sim):
+    HANDLES_RETRY = False         # cfg "retry" is played by MitmSim._server_app below, not by the base class
     """cfg keys added: c_suites/s_suites (names), c_alpn/s_alpn (list or None),
     c_versions/s_versions ("v1"/"v2" lists), c_orig, s_ident (identity name),
     c_ident (client certificate identity or None), creq (server requests a client
